@@ -144,7 +144,28 @@ def completeness(pkg: Path, backend: str, info: Dict[str, Any], inputs_text: str
     ms = pkg / info["main_script"]
     if not ms.is_file() or not os.access(ms, os.X_OK):
         return f"entry script {info['main_script']} missing or not executable"
+    # self-consistent: every file is rendered from the template of that name in THIS backend's template directory (of the tree
+    # under test): a template without directives arrives byte for byte, the directive-free lines of the others arrive in order
+    from ..core import REPO
+    tdir = REPO / "func_adl_xAOD" / "template" / TEMPLATE_DIR[backend]
+    for f in info["all_filenames"]:
+        tf = tdir / f
+        if not tf.is_file():
+            return f"file {f} has no template in {TEMPLATE_DIR[backend]}"
+        ttxt, got = tf.read_text(), (pkg / f).read_text()
+        if "{{" not in ttxt and "{%" not in ttxt:
+            if got.rstrip("\n") != ttxt.rstrip("\n"):
+                return f"file {f} is not this backend's {TEMPLATE_DIR[backend]}/{f} (a template without directives must arrive unchanged)"
+            continue
+        fixed = [l.strip() for l in ttxt.splitlines() if l.strip() and "{{" not in l and "{%" not in l and "{#" not in l and "#}" not in l]
+        it = iter(l.strip() for l in got.splitlines())
+        for want in fixed:
+            if not any(want == g for g in it):
+                return f"file {f}: line {want[:80]!r} of this backend's template {TEMPLATE_DIR[backend]}/{f} is missing or out of order"
     return None
+
+
+TEMPLATE_DIR = {"atlas": "atlas/r21", "cms_aod": "cms/r5", "cms_miniaod": "cms/r7"}
 
 
 def code_region(pkg: Path, backend: str) -> Tuple[List[str], List[str]]:
@@ -167,7 +188,7 @@ def run(ctx: Ctx) -> int:
     known = ctx.all_known()
     # all shapes allowed except the ones that cannot compile for a known reason unrelated to identifiers
     opts = common.gen_options(ctx, agg_over_selectmany=True, obj_rows_with_seq_col=True, minmax=True)
-    n = ctx.pick(70, 1200)
+    n = ctx.pick(56, 1200)
     cases: List[diff.Case] = []
     for backend in sch.BACKENDS:
         cs = common.make_cases(ctx, backend, n, ctx.pick([1, 2, 3], [1, 2, 3, 4]), opts, nevents=3, stream="c02")
@@ -211,6 +232,14 @@ def run(ctx: Ctx) -> int:
         for i, t in enumerate([f"ds.Select(lambda e: {{'Δη': e.{C}('A').Select(lambda j: j.eta()), 'pt_µ': e.{C}('A').Select(lambda j: j.pt()), 'met²': e.{C}('A').Count()}})",
                                f"ResultTTree(ds.SelectMany(lambda e: e.{C}('A')).Select(lambda j: (j.pt(), j.eta())), ['μ_φ', 'ünï'], 'tree', 'f.root')"]):
             cases.append(diff.Case(backend, t, evgen.gen_events(s, ctx.rng("na", backend, i), 2), diff.members_used(s, t), tag={"features": {"non_ascii_labels": 2, f"t{i}": 1}}))
+    # a fifth of the packages are produced in a process that has just served the OTHER backends (one service process translating
+    # for several experiments): the package must still be this backend's, complete and compilable
+    for i, c in enumerate(cases):
+        if i % 5 == ctx.seed % 5:
+            others = [b for b in sch.BACKENDS if b != c.backend]
+            ctx.rng("pre", i).shuffle(others)
+            c.pre_queries = [{"backend": b, "query": f"Select(EventDataset(), lambda e: e.{sch.fixed(b)['main']['coll']}('P').Select(lambda j: j.pt()))"} for b in others]
+            ctx.count("packages_written_after_other_backends")
     trs = eng.translate(cases, monitors=["vf.props.c02:name_monitor"])
     for c in cases:
         eng.model(c.backend)
